@@ -5,6 +5,17 @@ from ..core import gN, gZ, gbool, glist, gbytes, gopt, gpair
 from ..runner import Prop
 
 STRINGS = [("_a", b"ab"), ("_b", b"abc"), ("_c", b"zz"), ("_d", b"a"), ("_e", b"\x00\x01")]
+# the same five strings under names with shared prefixes, for the cases that write their sets with wildcards
+SUGAR_NAMES = ["_a", "_ab", "_b_a", "_b", "_c"]   # `$_a*` is {ab, abc}: it must not take `$_b_a` (zz)
+
+
+def names_of(case):
+    return SUGAR_NAMES if case.get("sugar", 0) & 2 else [n for n, _ in STRINGS]
+
+
+def strings_of(case):
+    return list(zip(names_of(case), [p for _, p in STRINGS]))
+
 MEMS = [b"abcabcab a\x00\x01xx", b"", b"a", b"ab", b"zzzab\x00\x01\x00\x01abc", b"xyz", b"aaaaaaaaaaaaaaaa",
         b"\xff\xfe\xfd\xfc\x80\x7f\x00\x01abcab"]
 
@@ -56,18 +67,27 @@ class C04(Prop):
         mem = rng.choice(MEMS) if rng.chance(3, 4) else rng.bytes(rng.range(0, 24), alphabet=b"abcz\x00\x01 ")
         exts = [("ext_i", "int"), ("ext_s", "bytes")]
         ext_vals = [rng.choice([0, 1, 5, -3, 1 << 40]), rng.choice([b"", b"ab", b"AB\x00"])]
-        g = cond.Gen(rng, len(STRINGS), len(mem), exts, max_depth=4)
+        g = cond.Gen(rng, len(STRINGS), len(mem), exts, max_depth=4, of_at_in=True)
+        forced_sugar = None
         while True:
             c = g.gbool(rng.range(1, 4))
             if rng.chance(1, 10):
                 c = sibling_loops(rng, len(STRINGS))
             elif rng.chance(1, 10):
                 c = quantified_partial(rng, len(STRINGS))
+            elif rng.chance(1, 8):
+                c = of_at_in(rng, mem)
+            elif rng.chance(1, 10):
+                c, forced_sugar = wildcard_sets(rng), rng.choice([2, 3, 7])
             probes = [g.gint(rng.range(0, 3)) for _ in range(rng.range(0, 4))]
             if not cond.has_big_range(c) and not any(cond.has_big_range(p) for p in probes):
                 break
         case = {"mem": mem.hex(), "cond": c, "probes": probes, "ext_vals": [ext_vals[0], ext_vals[1].hex()],
-                "match_max_length": rng.choice([512, 512, 0, 1, 2])}
+                "match_max_length": rng.choice([512, 512, 0, 1, 2]),
+                # how string sets are written: explicit lists, `them`, wildcards
+                "sugar": rng.choice([0, 0, 1, 2, 3, 7])}
+        if forced_sugar is not None:
+            case["sugar"] = forced_sugar
         return json.loads(json.dumps(case, default=lambda b: list(b)))
 
     def generate(self, ctx, rng, n):
@@ -84,9 +104,9 @@ class C04(Prop):
         return out
 
     def rules_text(self, case):
-        pr = cond.Printer([n for n, _ in STRINGS])
+        pr = cond.Printer(names_of(case), sugar=case.get("sugar", 0))
         c = tup(case["cond"])
-        ss = strings_section(STRINGS)
+        ss = strings_section(strings_of(case))
         txt = 'import "console"\nrule c {\n%s\ncondition:\n    %s\n}\n' % (ss, pr.y(c))
         for i, p in enumerate(case["probes"]):
             txt += 'rule p%d {\n%s\ncondition:\n    console.log("p%d:", %s)\n}\n' % (i, ss, i, pr.y(tup(p)))
@@ -141,7 +161,7 @@ class C04(Prop):
 
     def nontrivial(self, case, out):
         s = json.dumps(case["cond"])
-        if any(k in s for k in ['"var', '"count', '"offset', '"length', '"for', '"of"']):
+        if any(k in s for k in ['"var', '"count', '"offset', '"length', '"for', '"of']):
             return json.dumps([case["cond"], case["mem"], case["probes"]])
         return None
 
@@ -200,6 +220,48 @@ def quantified_partial(rng, nvars):
     if shape == 1:
         return ("forrange", k, se, ("int", lo), ("int", hi), body)
     return ("forlist", k, se, [("int", x) for x in range(lo, hi + 1)], body)
+
+
+def wildcard_sets(rng):
+    """Quantifiers whose count depends on exactly which strings a wildcard takes (printed with SUGAR_NAMES:
+    `$_a*` = {0, 1}, `$_b*` = {2, 3}, `$_*` = all, `$_c*` = {4})."""
+    vs = rng.choice([[0, 1], [2, 3], [0, 1, 4], [0, 1, 2, 3], [2, 3, 4], [0, 1, 2, 3, 4], [4], [0, 1, 3]])
+    k = rng.choice(["all", "none", "expr", "expr", "pct", "any"])
+    n = len(vs)
+    se = ("int", rng.choice([n, n, max(1, n - 1), n + 1])) if k == "expr" else (("int", 100) if k == "pct" else None)
+    body = rng.choice([None, None, ("bin", "ge", ("count", None), ("int", rng.choice([1, 2]))),
+                       ("un", "not", ("var", None)), ("varin", None, ("int", 0), ("filesize",))])
+    c = ("of", k, se, vs) if body is None else ("for", k, se, vs, body)
+    return ("un", "not", c) if rng.chance(1, 4) else c
+
+
+def of_at_in(rng, mem):
+    """`N of (set) at X` and `N of (set) in (A..B)` with positions taken from where the strings do match (or one
+    off), so that the count against N is decided by the positions and not by absence."""
+    nvars = len(STRINGS)
+    occ = sorted(set(o for _, p in STRINGS for o in cond.find_all(mem, p)))
+    pos = (rng.choice(occ) if occ else 0) + rng.choice([0, 0, 0, 1, -1])
+    pos = max(0, pos)
+    vs = sorted(set(rng.below(nvars) for _ in range(rng.range(1, nvars + 1)))) if rng.chance(2, 3) else list(range(nvars))
+    k = rng.choice(["any", "all", "none", "expr", "expr", "pct"])
+    se = ("int", rng.choice([1, 2, 2, 3, len(vs)])) if k == "expr" else (("int", rng.choice([50, 100])) if k == "pct" else None)
+    if k == "pct" and not cond.pct_exact(se[1], len(vs)):
+        k, se = "any", None
+    if rng.chance(1, 2):
+        x = rng.choice([("int", pos), ("int", pos), ("offset", rng.below(nvars), ("int", rng.choice([1, 1, 2]))),
+                        ("bin", "sub", ("filesize",), ("int", max(0, len(mem) - pos)))])
+        c = ("ofat", k, se, vs, x)
+    else:
+        w = rng.choice([0, 0, 1, 2, 4, len(mem)])
+        lo = rng.choice([("int", pos), ("int", max(0, pos - w)), ("offset", rng.below(nvars), ("int", 1))])
+        hi = rng.choice([("int", pos + w), ("bin", "add", lo, ("int", w)), ("filesize",), ("int", max(0, pos - 1))])
+        c = ("ofin", k, se, vs, lo, hi)
+    r = rng.below(4)
+    if r == 0:
+        return ("un", "not", c)
+    if r == 1:
+        return (rng.choice(["and", "or"]), [c, ("var", rng.below(nvars))])
+    return c
 
 
 def tup(x):
